@@ -32,3 +32,16 @@ func VerifC10Backlog(c net.Conn) (rd, wr int, ok bool) {
 	}
 	return len(mc.workerRdChan), len(mc.workerWrChan), true
 }
+
+// VerifC10CarryOver reports the size of the partially read response body kept between
+// Read calls (rdBuf) and the package's per-response limit.
+func VerifC10CarryOver(c net.Conn) (n, limit int, ok bool) {
+	mc, ok := c.(*meekConn)
+	if !ok {
+		return 0, 0, false
+	}
+	if mc.rdBuf != nil {
+		n = mc.rdBuf.Len()
+	}
+	return n, maxPayloadLength, true
+}
